@@ -9,9 +9,12 @@ Conventions
   `getStatePrev`), `segmentCompleted = FirstIndex() - 1` (the model stores `next = segmentCompleted + 1`),
   `segmentIdx - shadowableSegment` (the comparisons are rewritten with the subtrahend on the other side).
 * An unrecovered Go panic is `Except.error` with the reason.
-* `fix : Patch` selects the proposed patches (`Patch.none` = the code as it is): `deps` patches
-  `dependenciesCompleted` (F15, F20), `shadow` patches `markShadowedUnits` (F19), `stageIdx` makes the worker
-  request carry the graph's stage index (F21: stage index shift when NewStages skips the store stages).
+* `fix : Patch` selects which of the three scheduler fixes the modelled code contains (all three are committed:
+  `Patch.all` = `Patch.head` = the repository at HEAD; `Patch.none` = the code before them, kept so that the
+  defects stay kernel-checked counterexamples and the harness can be run against an older checkout):
+  `deps` = d60dce44 `dependenciesCompleted` (F15, F20), `shadow` = 9da4cc23 `markShadowedUnits` (F19),
+  `stageIdx` = 38ce9883 the worker request carries the graph's stage index (F21: stage index shift when NewStages
+  skips the store stages).
 -/
 namespace SV.Stg
 open SV
@@ -41,7 +44,7 @@ inductive Err where
   | endsOnInterval         -- Segmenter.EndsOnInterval out of range
 deriving DecidableEq, Repr, Inhabited
 
-/-- which of the proposed patches are applied -/
+/-- which of the three scheduler fixes the modelled code contains -/
 structure Patch where
   deps     : Bool     -- dependenciesCompleted
   shadow   : Bool     -- markShadowedUnits
@@ -151,7 +154,7 @@ def shadowableSeg (s : Stages) (seg : Nat) : Bool :=
 
 /-- body of the loop of `markShadowedUnits`, stages `fuel-1, …, 0` of which only those with
 `stage ≥ seg - shadowable` are looked at (the loop stops at the first one below).
-`fix.shadow` is the PROPOSED PATCH: only a Pending (or already Shadowed) unit is shadowed — never one whose
+`fix.shadow` is the FIX 9da4cc23: only a Pending (or already Shadowed) unit is shadowed — never one whose
 partial is present, that is being merged or that is scheduled — and not under a unit that is already Merging
 (its job is over and will never turn the shadowed unit into PartialPresent). -/
 def shadowCond (fix : Patch) (st nx : UnitState) : Bool :=
@@ -188,7 +191,7 @@ def depsLoop (s : Stages) (seg : Nat) (prevParentOk : Bool) : Nat → Bool
     | .shadowed | .partialPresent => if prevParentOk then depsLoop s seg prevParentOk k else false
     | _ => false
 
-/-- PROPOSED PATCH (`fix.deps`): for every lower stage that has data at or before this segment, the unit of
+/-- FIX d60dce44 (`fix.deps`): for every lower stage that has data at or before this segment, the unit of
 the PREVIOUS segment must be complete (that is where the job loads the stage's full snapshots from), and the
 unit of this segment must be complete, or present, or shadowed (produced by this very job).  The early return
 for the first segment of the unit's own stage is gone: a lower stage may have started earlier. -/
